@@ -15,7 +15,7 @@ import vlib
 OPS = {"START_ACTIVITY", "STOP_ACTIVITY", "RESET", "CONFIGURE"}
 HOOKSETS = [set(), {"h1"}, {"d1"}, {"h1", "h2"}, {"h1", "d2"}, {"d1", "h2"}, {"h1", "h3"}, {"d1", "d3"}, {"h1", "h2", "d1"}]
 FLAGS = [set(), {"force"}, {"keep"}, {"allow"}, {"force", "keep"}, {"allow", "keep"}]
-SCRIPTS = {"ok", "load", "undeployable", "partial", "launchfail", "silentlaunch", "configfail"}
+SCRIPTS = {"ok", "load", "undeployable", "partial", "launchfail", "silentlaunch", "configfail", "hookfail"}
 ONE = dict(Envs={"e1"}, Dets={"TPC"}, DetChoices=[{"TPC"}], MaxInFlight=1)
 # deviation of C06 -> LifecycleGen configuration whose exhaustive search violates PostOnReturn
 CEX = {
@@ -32,7 +32,7 @@ def model_cfgs(ctx):
     if ctx.tier == "quick":
         return [("one-env", dict(ONE, TaskIds={"k1", "k2", "k3", "k4", "k5"}, BasicChoices=[{"a"}, {"a", "b"}],
                                  HookChoices=[set(), {"h1"}, {"h1", "h2"}, {"h1", "h3"}], PendChoices=[False, True],
-                                 Scripts=SCRIPTS, Ops={"START_ACTIVITY", "STOP_ACTIVITY"}, DestroyFlags=FLAGS, KillOutcomes={"ack", "silent"},
+                                 Scripts=SCRIPTS, Ops={"START_ACTIVITY", "STOP_ACTIVITY"}, DestroyFlags=FLAGS, KillOutcomes={"ack", "silent", "refuse"},
                                  FaultRoles={"h1"}, MaxCalls=3)),
                 # executor / agent reported lost (ids blanked, role still set), then destroy / cleanup
                 ("lost", dict(ONE, BasicChoices=[{"a"}, {"a", "b"}], HookChoices=[set(), {"h1"}, {"h2"}], Ops={"START_ACTIVITY"},
@@ -41,7 +41,7 @@ def model_cfgs(ctx):
                                          Ops=set(), DestroyFlags=[set(), {"force"}, {"keep"}], MaxCalls=3, MaxInFlight=2))]
     return [("one-env", dict(ONE, TaskIds={"k1", "k2", "k3", "k4", "k5"}, BasicChoices=[{"a"}, {"a", "b"}], HookChoices=HOOKSETS,
                              PendChoices=[False, True], Scripts=SCRIPTS, Ops=OPS - {"CONFIGURE"} | {"RESET"}, DestroyFlags=FLAGS,
-                             KillOutcomes={"ack", "silent"}, FaultRoles={"h1"}, MaxCalls=4)),
+                             KillOutcomes={"ack", "silent", "refuse"}, FaultRoles={"h1"}, MaxCalls=4)),
             ("lost", dict(ONE, BasicChoices=[{"a"}, {"a", "b"}], HookChoices=[set(), {"h1"}, {"h2"}, {"h1", "h2"}],
                           Ops={"START_ACTIVITY", "RESET"}, DestroyFlags=FLAGS, FaultRoles={"a", "b", "h1", "h2"},
                           FaultKinds={"EXECUTOR_LOST", "AGENT_LOST"}, MaxCalls=4)),
@@ -110,6 +110,9 @@ def run(ctx):
         sid[0] += 1
         scenarios.append(recipe_rendezvous(sid[0]))
         expected[sid[0]] = "release-rendezvous-lost"
+    # a KILL call rejected by the master in the middle of a destroy's batch: the destroy must not report success
+    sid[0] += 1
+    scenarios.append(lc.recipe_kill_refused(sid[0]))
     if lc.dev_open(ctx, "Code_ClaimNotAtomic"):
         # a destroy that cannot be honoured (HonestError): after the double claim (finding of C04, task reuse) the release of
         # the task the other environment took over is refused, the forced teardown fails and the destroy must say so
